@@ -67,7 +67,7 @@ def pool(tier):
   nums = [["1"], ["1", "1"], ["1", "-1"], ["2", "1"], ["0", "1"], ["1", "0", "1"], ["1", "-2", "1"],
           ["1/2", "1", "-3"], ["1", "1", "1", "1"], ["3", "-1/2", "0", "2"]]
   dens = [["1"], ["1", "-1"], ["2", "1"], ["1", "0", "1"], ["1", "-1/2"], ["1", "-9/10"], ["1", "-1", "1/2"],
-          ["1", "0", "0", "1/8"]]
+          ["1", "0", "0", "1/8"], ["4"], ["-1/2"]]       # single-term denominators other than 1: a pure gain
   if tier != "quick":
     nums += [["-1", "2", "3", "-2"], ["1", "0", "0", "-1"], ["0", "0", "2"]]
     dens += [["3", "-2", "1"], ["1", "3/2", "1/2"], ["1", "0", "-81/100"]]
@@ -253,6 +253,21 @@ def run_bank(case):
                      ("cascade-of-parallel", CascadeFilter([par, mk(specs[0])])),
                      ("parallel-of-cascade", ParallelFilter([cas, mk(specs[-1])]))):
     one = [bank.freq_response(w) for w in sub]
+    # the nested structure itself: (sum of the parts) x first part, (product of the parts) + last part
+    for w, got1 in zip(sub, one):
+      parts = [exact_H(s_, w) for s_ in specs]
+      if any(D.is_zero() or eD > D.abs() / 4 for N, D, eN, eD in parts):
+        continue
+      Hs = [N / D for N, D, eN, eD in parts]
+      prod, tot = C(1), C(0)
+      for H in Hs:
+        prod, tot = prod * H, tot + H
+      want = {"cascade": prod, "parallel": tot, "cascade-of-parallel": tot * Hs[0],
+              "parallel-of-cascade": prod + Hs[-1]}[name]
+      scale = 1 + want.abs() + sum(H.abs() for H in Hs) ** 2
+      if abs(complex(got1) - want.cfloat()) > 1e-9 * scale:
+        return bad("freq_response:nested", "%s: the response must be that of the nested structure" % name,
+                   {"w": w, "H": str(want.cfloat())}, str(got1), nt)
     for kind, arg in (("list", list(sub)), ("tuple", tuple(sub)), ("stream", Stream(list(sub))),
                       ("generator", (w for w in sub)), ("endless-stream", Stream(list(sub)).append(Stream(0.3).limit(50)))):
       out = bank.freq_response(arg)
